@@ -31,7 +31,15 @@ struct Model {
 }
 
 fn piece(id: u64, len: usize) -> Vec<u8> {
-    crate::sim::content(0xC18 + id * 7919, 0, len as u64)
+    // every third piece is degenerate (all zero / all 0xFF / sparse): a content-sensitive shortcut must not lose it
+    let seed = 0xC18 + id * 7919;
+    let seed = match id % 6 {
+        1 | 4 => crate::sim::with_kind(seed, crate::sim::KIND_ZEROS),
+        2 => crate::sim::with_kind(seed, crate::sim::KIND_ONES),
+        5 => crate::sim::with_kind(seed, crate::sim::KIND_SPARSE),
+        _ => seed,
+    };
+    crate::sim::content(seed, 0, len as u64)
 }
 
 /// Runs one operation sequence on a real Window and the model in lock-step.
@@ -226,9 +234,10 @@ pub fn c18(thorough: bool, miri: bool, seed: u64, threads: usize) -> Json {
                         }
                     }
                     rep.class("reader-config-exhausted");
-                } else if i < cfgs.len() + 4 {
-                    let size = (i - cfgs.len() + 1) as u16;
-                    let alphabet = [Op::Add(4), Op::Add(3), Op::Add(0), Op::Remove(1), Op::RemoveRel(1), Op::Empty];
+                } else if i < cfgs.len() + 6 {
+                    // four window sizes with 4-byte pieces, then sector- and page-sized pieces
+                    let (size, wchunk) = [(1u16, 4usize), (2, 4), (3, 4), (4, 4), (2, 512), (3, 4096)][i - cfgs.len()];
+                    let alphabet = [Op::Add(wchunk), Op::Add(wchunk - 1), Op::Add(0), Op::Remove(1), Op::RemoveRel(1), Op::Empty];
                     for len in 1..=maxlen + 1 {
                         let total_seq = alphabet.len().pow(len as u32);
                         for code in 0..total_seq {
@@ -240,13 +249,13 @@ pub fn c18(thorough: bool, miri: bool, seed: u64, threads: usize) -> Json {
                                     o
                                 })
                                 .collect();
-                            run_seq(false, size, 4, &[], &src_path, &scratch, &ops, &mut rep);
+                            run_seq(false, size, wchunk, &[], &src_path, &scratch, &ops, &mut rep);
                         }
                     }
                     rep.class("writer-config-exhausted");
-                } else if i == cfgs.len() + 4 && miri {
+                } else if i == cfgs.len() + 6 && miri {
                     // skipped under Miri
-                } else if i == cfgs.len() + 4 {
+                } else if i == cfgs.len() + 6 {
                     // many buffered pieces flushed at once (sizes around 1024 = IOV_MAX, and the u16 maximum)
                     for (size, adds) in [(1023u16, 1023usize), (1024, 1024), (1025, 1025), (1100, 1100), (2048, 2000), (4096, 4096), (65535, 3000)] {
                         for piece_len in [1usize, 6, 8] {
@@ -258,16 +267,21 @@ pub fn c18(thorough: bool, miri: bool, seed: u64, threads: usize) -> Json {
                         }
                     }
                     rep.class("writer-large-window");
-                } else if i < cfgs.len() + 5 + 64 {
+                } else if i < cfgs.len() + 7 + 64 {
                     // seeded random long sequences with large parameters
                     let mut r = Rng::new(seed.wrapping_mul(977).wrapping_add(i as u64));
-                    for _ in 0..(if miri { (i == cfgs.len() + 5) as usize * 2 } else { nrandom / 64 }) {
+                    for _ in 0..(if miri { (i == cfgs.len() + 7) as usize * 2 } else { nrandom / 64 }) {
                         let size = *r.pick(&[1u16, 2, 3, 7, 64, 1000, 65534, 65535]);
-                        let chunk = *r.pick(&[1usize, 8, 9, 512, 1428, 65464]);
+                        let chunk = *r.pick(&[1usize, 8, 9, 512, 1428, 4096, 8192, 65464]);
                         let reader = r.chance(600);
                         let max_file = (size as usize * chunk * 3).min(300_000);
                         let flen = if r.chance(300) { (r.below(4) as usize) * chunk } else { r.below(max_file as u64 + 1) as usize };
-                        let src = if reader { crate::sim::content(r.next(), 0, flen as u64) } else { vec![] };
+                        let src_seed = match r.below(4) {
+                            0 => crate::sim::with_kind(r.next(), crate::sim::KIND_ZEROS),
+                            1 => crate::sim::with_kind(r.next(), crate::sim::KIND_SPARSE),
+                            _ => r.next(),
+                        };
+                        let src = if reader { crate::sim::content(src_seed, 0, flen as u64) } else { vec![] };
                         if reader {
                             std::fs::write(&src_path, &src).unwrap();
                         }
@@ -281,7 +295,7 @@ pub fn c18(thorough: bool, miri: bool, seed: u64, threads: usize) -> Json {
                                     (true, 6) => Op::RemoveRel(r.below(2) as u16),
                                     (true, 7) => Op::Remove(r.below(size as u64 + 2) as u16),
                                     (true, _) => Op::Add(chunk.min(64)),
-                                    (false, 0..=5) => Op::Add(if r.chance(800) { chunk.min(2000) } else { r.below(chunk.min(2000) as u64 + 1) as usize }),
+                                    (false, 0..=5) => Op::Add(if r.chance(800) { chunk.min(9000) } else { r.below(chunk.min(9000) as u64 + 1) as usize }),
                                     (false, 6) => Op::Remove(r.below(3) as u16),
                                     (false, 7) => Op::RemoveRel(r.below(2) as u16),
                                     (false, _) => Op::Empty,
